@@ -38,7 +38,7 @@ EffWindow(m) ==
   IF m.ver = 5 /\ m.peerRM > 0 THEN Min(base, m.peerRM) ELSE base
 EffQos(m) == IF m.ver = 5 /\ m.ackQos >= 0 THEN m.ackQos ELSE m.maxQos
 EffAlias(m) == IF m.ackAlias >= 0 THEN m.ackAlias ELSE m.aliasMax
-EffSize(m) == IF m.ver = 5 /\ m.ackSize >= 0 THEN m.ackSize ELSE m.maxSize
+EffSize(m) == IF m.ver = 5 /\ m.ackSize >= 0 THEN m.ackSize ELSE IF m.ver = 3 /\ m.ackSize > 0 THEN m.ackSize ELSE m.maxSize
 EffRM(m) == IF m.ackRM > 0 THEN m.ackRM ELSE m.maxReceive
 
 OnCfg(m, ev) ==
